@@ -479,7 +479,10 @@ fn real_copy(ib: usize, ob: usize, q: u32, lgwin: u32, src: &[u8], rscript: &[Be
 fn obs_line(kind: char, o: &Obs, enc_calls: usize, bad: bool) -> String {
     let res = if o.results.is_empty() { "-".to_string() } else { o.results.join(",") };
     let f = |x: Option<u64>| x.map(|v| v.to_string()).unwrap_or("-".into());
+    let live = o.results.last().map(|t| t == "livelock").unwrap_or(false);
     match kind {
+        'W' | 'R' if live => format!("{} n=- h=- acc=- enc=- bad={} -", res, bad as u8),
+        _ if live => format!("{} rn=- rh=- wn=- wh=- enc=- bad={} -", res, bad as u8),
         'W' => format!("{} n={} h={} acc={} enc={} bad={} sink={}", res, o.log.len(), log_hash(&o.log), f(o.acc), if o.stopped { "-".into() } else { enc_calls.to_string() }, bad as u8, hex(&o.sink)),
         'R' => format!("{} n={} h={} acc={} enc={} bad={} left={}", res, o.log.len(), log_hash(&o.log), f(o.acc), if o.stopped { "-".into() } else { enc_calls.to_string() }, bad as u8, o.left),
         _ => format!("{} rn={} rh={} wn={} wh={} enc={} bad={} sink={}", res, o.log.len(), log_hash(&o.log), o.wlog.len(), log_hash(&o.wlog), if o.stopped { "-".into() } else { enc_calls.to_string() }, bad as u8, hex(&o.sink)),
@@ -549,7 +552,15 @@ pub fn run_case(c: &Case, rep: &mut Report, verbose: bool) -> (String, String) {
     if imp != mir { rep.violation("adapters:mirror-mismatch", &format!("real adapter and transcribed model differ: real [{}] mirror [{}]", imp.chars().take(300).collect::<String>(), mir.chars().take(300).collect::<String>()), case_json("")); }
     // ---- property oracles on the real run
     let zero_write = |e: &LogE| e.kind == 0 && e.res == Res::N(0) && e.req > 0;
+    // generic CustomIo layer: the stock error values are handed out by move and this harness does
+    // not call rearm_errors; once one is gone the "armed at call entry" hypothesis of the theorems
+    // does not hold any more, and a swallowed zero-length write / unwrap-on-None panic is the
+    // documented consequence (counted, not reported)
+    let custom_io = matches!(c, Case::W { custom_io: true, .. } | Case::R { custom_io: true, .. });
+    let unarmed_from = if custom_io { real.results.iter().position(|t| t == "err:WZ" || t == "err:ID").map(|p| p + 1) } else { None };
+    let exempt = |i: usize| unarmed_from.map(|u| i >= u).unwrap_or(false);
     for (i, t) in real.results.iter().enumerate() {
+        if exempt(i) && (t == "panic") { rep.count("custom_io.unarmed.panic"); continue; }
         if t == "livelock" {
             let sig = match c {
                 Case::R { calls, .. } if matches!(calls.get(i), Some(RCall::Read(0))) => "adapters:reader:empty-buffer-never-returns",
@@ -565,7 +576,7 @@ pub fn run_case(c: &Case, rep: &mut Report, verbose: bool) -> (String, String) {
         Case::W { calls, .. } => for (i, sp) in real.spans.iter().enumerate() {
             if matches!(calls[i], WCall::Close) { continue; } // into_inner has no Result (documented API)
             let bad_ev = real.log[sp.0..sp.1].iter().find(|e| matches!(e.res, Res::E(_)) || zero_write(e));
-            if let Some(ev) = bad_ev { if real.results[i].starts_with("ok") {
+            if let Some(ev) = bad_ev { if real.results[i].starts_with("ok") && exempt(i) { rep.count("custom_io.unarmed.swallowed"); } else if real.results[i].starts_with("ok") {
                 let nth = real.log[..sp.1].iter().filter(|e| zero_write(e)).count();
                 let sig = if zero_write(ev) { if nth >= 3 { "adapters:writer:zero-length-write-swallowed:third-or-later" } else { "adapters:writer:zero-length-write-swallowed" } } else { "adapters:writer:hard-error-swallowed" };
                 rep.violation(sig, &format!("call #{} returned {} although the wrapped writer answered {:?} to a write of {} bytes", i, real.results[i], ev.res, ev.req), case_json(&format!(",\"call\":{}", i)));
@@ -592,7 +603,8 @@ pub fn run_case(c: &Case, rep: &mut Report, verbose: bool) -> (String, String) {
             if real_bytes != ideal_bytes { rep.violation("adapters:bytes-depend-on-short-io", &format!("every call succeeded but the bytes delivered differ from the run over a well-behaved stream ({} vs {} bytes, first difference at {})", real_bytes.len(), ideal_bytes.len(), crate::dec::first_diff(real_bytes, ideal_bytes)), case_json("")); }
             let closed = match c { Case::W { calls, .. } => matches!(calls.last(), Some(WCall::Close)), Case::R { .. } => real.results.last().map(|t| t == "ok:-").unwrap_or(false) && !matches!(c, Case::R { calls, .. } if matches!(calls.last(), Some(RCall::Read(0)))), Case::C { .. } => true };
             if closed { match crate::dec::decode(real_bytes, written.len() + 65536) { crate::dec::DResult::Ok(v) if v == written => { rep.count("roundtrip.ok"); } other => { rep.violation("adapters:complete-stream-does-not-decode", &format!("every call succeeded and the stream was closed, but the delivered bytes do not decode to what was written: {:?}", match other { crate::dec::DResult::Ok(v) => format!("decoded {} bytes, expected {}", v.len(), written.len()), crate::dec::DResult::Error(v) => format!("error after {}", v.len()), crate::dec::DResult::NeedsMoreInput(v) => format!("truncated after {}", v.len()), _ => "too big".into() }), case_json("")); } } }
-        } else if kind != 'R' {
+        } else if kind != 'R' && !real.log.iter().any(|e| e.kind == 1 && matches!(e.res, Res::E(_))) {
+            // (a read error makes the copy function finish the stream early: other requests, no prefix claim)
             let upto = real.sink_at_first_err.unwrap_or(real.sink.len()).min(real.sink.len());
             if !premature_eof && !ideal.sink.starts_with(&real.sink[..upto]) { rep.violation("adapters:not-a-prefix", "the bytes handed to the sink before the first failing call are not a prefix of the well-behaved run's bytes", case_json("")); }
             else { rep.count("prefix_checked"); }
@@ -644,7 +656,11 @@ fn gen_case(rng: &mut Rng) -> Case {
         }
         1 => {
             let buf = if small_buf { rng.range(1, 3) as usize } else { *rng.pick(&[7usize, 64, 255, 256, 257, 300, 4096]) };
-            let n = if buf < 4 { rng.below(400) } else { rng.below(3000) } as usize;
+            let script = gen_script(rng, 30, faulty, &mut code); let tail = gen_tail(rng, faulty);
+            // keep well-behaved runs far below LIMIT loop iterations per call (one iteration moves
+            // at most min(buf, k) source bytes when the tail is S<k>)
+            let per = buf.min(match tail { Beh::S(k) => k, _ => usize::MAX });
+            let n = rng.below((1500 * per).min(3000) as u64) as usize;
             let src = gen_data(rng, n);
             let custom_io = rng.chance(1, 3);
             let mut calls = vec![];
@@ -653,13 +669,15 @@ fn gen_case(rng: &mut Rng) -> Case {
             for _ in 0..nreads { if custom_io && rng.chance(1, 10) { calls.push(RCall::ToFront); } calls.push(RCall::Read(if rng.chance(1, 12) { 0 } else if rng.chance(1, 4) { rng.range(1, sz as u64) as usize } else { sz })); }
             // finish with generous reads so that well-behaved runs reach Ok(0)
             for _ in 0..3 { calls.push(RCall::Read(8192)); }
-            Case::R { custom_io, buf, q, lgwin, src, script: gen_script(rng, 30, faulty, &mut code), tail: gen_tail(rng, faulty), calls }
+            Case::R { custom_io, buf, q, lgwin, src, script, tail, calls }
         }
         _ => {
             let ib = if small_buf { rng.range(1, 3) as usize } else { *rng.pick(&[7usize, 64, 4096]) };
             let ob = if rng.chance(1, 3) { rng.range(1, 3) as usize } else { *rng.pick(&[7usize, 64, 4096]) };
-            let n = if ib < 4 || ob < 4 { rng.below(400) } else { rng.below(3000) } as usize;
-            Case::C { ib, ob, q, lgwin, src: gen_data(rng, n), rscript: gen_script(rng, 20, faulty, &mut code), rtail: gen_tail(rng, faulty), wscript: gen_script(rng, 20, faulty, &mut code), wtail: gen_tail(rng, faulty) }
+            let rtail = gen_tail(rng, faulty);
+            let per = ib.min(match rtail { Beh::S(k) => k, _ => usize::MAX });
+            let n = rng.below((if ob < 4 { 400 } else { 1500 * per }).min(3000) as u64) as usize;
+            Case::C { ib, ob, q, lgwin, src: gen_data(rng, n), rscript: gen_script(rng, 20, faulty, &mut code), rtail, wscript: gen_script(rng, 20, faulty, &mut code), wtail: gen_tail(rng, faulty) }
         }
     }
 }
